@@ -60,7 +60,7 @@ def judge(rep, behaviours, trace, prop, names):
 def probe_stimuli(rep, first_id=9001):
     """TLC counterexamples for every known-defect tag, as stimuli"""
     out = []
-    for i, tag in enumerate(PROBES + ['EpochEmptyStart']):
+    for i, tag in enumerate(PROBES):
         names, beh = core.tlc_counterexample('MC_Replication.tla', 'Probe_Replication_%s.cfg' % tag)
         rep.cov.setdefault('defect_probes', []).append({'tag': tag, 'reachable': bool(names),
                                                         'steps': len(beh) - 1 if beh else 0})
